@@ -163,7 +163,7 @@ def make_cases_factory(state):
         cases = []
         while len(cases) < n:
             kind, top = doc_for(rng)
-            ns = rng.choice([{}, NS, NS, {'': gen.XHTML, 'svg': gen.SVG}])
+            ns = rng.choice([{}, NS, NS, {'': gen.XHTML, 'svg': gen.SVG}, {'': gen.SVG, 'h': gen.XHTML}, {'': 'urn:none', 'svg': gen.SVG}])
             soup = gen.build_doc(kind, top)
             try:
                 names = sorted({e.name for e in gen.elements(soup)})
